@@ -412,7 +412,20 @@ Definition seize (e : env) (s : state) (cp : cparam) (c : cdp) : outcome state u
       end
   end.
 
-(* LiquidateCdps: the slice of cdps is read first, then each is seized *)
+(* LiquidateCdps (after fix 2e356dd20): every candidate read from the index scan is confirmed with the
+   value-ratio formula of CalculateCollateralizationRatio at the price fetched by this function;
+   a candidate whose ratio is at or above the liquidation ratio is skipped *)
+Definition confirm_below (e : env) (cp : cparam) (p : Z) (c : cdp) : bool :=
+  let debt := to_base (c_prin c) (dp_cf e) + to_base (c_fees c) (dp_cf e) in
+  if 0 <? debt then dec_quo (dec_mul (to_base (c_coll c) (cp_cf cp)) p) debt <? cp_liq cp else true.
+
+Definition liq_step (e : env) (cp : cparam) (p : Z) (s1 : state) (o : option cdp) : outcome state unit :=
+  match o with
+  | Some c => if confirm_below e cp p c then seize e s1 cp c else Ok s1 tt
+  | None => Panic
+  end.
+
+(* the slice of cdps is read first, then each confirmed candidate is seized *)
 Definition liquidate_cdps (e : env) (s : state) (t : nat) (cp : cparam) : outcome state unit :=
   let p := price s (cp_liqm cp) in
   if p =? 0 then Ok s tt        (* ErrNoValidPrice is ignored by the begin blocker *)
@@ -420,7 +433,7 @@ Definition liquidate_cdps (e : env) (s : state) (t : nat) (cp : cparam) : outcom
     let ents := idx_below (rkey (liq_cut p (cp_liq cp))) (scan_count cp) (ridx s t) in
     let loaded := map (fun x : Z * nat => get_cdp e s t (snd x)) ents in
     if existsb (fun o : option cdp => match o with None => true | Some _ => false end) loaded then Panic
-    else ofold (fun s1 o => match o with Some c => seize e s1 cp c | None => Panic end) s loaded.
+    else ofold (liq_step e cp p) s loaded.
 
 (* payoutKeeperLiquidationReward *)
 Fixpoint first_dep_ge (r : Z) (dl : list (nat * Z)) : option (nat * Z) :=
@@ -643,6 +656,8 @@ Definition draw (e : env) (s : state) (o t pd : nat) (x : Z) : outcome state uni
   if negb (0 <? x) then Err else
   match find_cdp e s o t, get_cp e t with
   | Some c0, Some cp =>
+      (* ValidateCollateral (after fix 8fb7c1495): both market-status flags must be up *)
+      if negb (mstat s (cp_spot cp) && mstat s (cp_liqm cp)) then Err else
       if negb (Nat.eqb pd (d_usdx e)) then Err else
       if negb (debt_limit_ok e s t cp x) then Err else
       match sync_interest e s cp c0 with
